@@ -1217,8 +1217,14 @@ func toString(v interface{}) string {
 	}
 
 	// A nil pointer has no value to print (and calling a value-receiver String() on it would panic)
-	if rv := reflect.ValueOf(v); rv.Kind() == reflect.Ptr && rv.IsNil() {
-		return ""
+	if rv := reflect.ValueOf(v); rv.Kind() == reflect.Ptr {
+		if rv.IsNil() {
+			return ""
+		}
+		// A pointer to anything but a struct prints as the value it points to, never as an address
+		if _, isStringer := v.(fmt.Stringer); !isStringer && rv.Elem().Kind() != reflect.Struct && rv.Elem().CanInterface() {
+			return toString(rv.Elem().Interface())
+		}
 	}
 
 	switch val := v.(type) {
